@@ -32,6 +32,7 @@ func h07Perm(texts []string, k int) []string {
 // H07: every augment of the composition universe ends up applied exactly once, attributed to
 // the augmenting module, whatever the load order (second run on a fresh set, other order).
 func H07() {
+	hcSlim = param("slim") == 1
 	sc := hcGenerate(param("n"))
 	hasAug := false
 	for _, lv := range sc.levels {
